@@ -1,5 +1,6 @@
 """C01 — encode/decode round trip reproduces the geometry exactly (modulo quantization)."""
 from vlib.engine import Case
+from . import ebenc_cases
 from . import e2e, e2etags, ebcases, geomgen as G, kdcases, topo2, seqenc_cases
 
 ID = "C01"
@@ -160,6 +161,8 @@ def generate(rng, tier):
     # the Edgebreaker decoder model driven through every branch on purpose (standard / valence traversal, split
     # events, holes, seams, all mesh prediction schemes); reached branches show as eb:* in input_distribution
     cases += ebcases.cases(rng, tier)
+    # Edgebreaker ENCODER model vs the real encoder, byte for byte (choices read back: symbol schemes, crease flags)
+    cases += ebenc_cases.cases(rng, tier)
     # kd-tree: every level 0..6, dimensions 1..20, all integer types at their limits, 1..30 bit quantization, and the
     # tree coder alone (model encoder bytes == DynamicIntegerPointsKdTreeEncoder bytes)
     cases += kdcases.kd_cases(rng, tier) + kdcases.kd_core_cases(rng, tier)
